@@ -110,7 +110,33 @@ fn nest(rng: &mut Rng, depth: u32) -> Amf0Value {
     v
 }
 
+/// A reader that hands out its bytes in short pieces (1, 2, 3, 7, 1, ... bytes per call): the decoder takes any `Read`, and a
+/// `Read` may return fewer bytes than asked for at any time.
+struct ShortReader<'a> {
+    cur: Cursor<&'a [u8]>,
+    k: usize,
+}
+impl<'a> std::io::Read for ShortReader<'a> {
+    fn read(&mut self, buf: &mut [u8]) -> std::io::Result<usize> {
+        const STEPS: [usize; 6] = [1, 2, 3, 7, 1, 64];
+        let n = STEPS[self.k % STEPS.len()].min(buf.len());
+        self.k += 1;
+        self.cur.read(&mut buf[..n])
+    }
+}
+
 fn lib_decode(bytes: &[u8]) -> (String, Vec<Amf0Value>, usize) {
+    // every third input (by length) is read through the short reader; results must not depend on that
+    if bytes.len() % 3 == 1 && bytes.len() < 5000 {
+        let mut sr = ShortReader { cur: Cursor::new(bytes), k: bytes.len() };
+        let r = catch_unwind(AssertUnwindSafe(|| deserialize(&mut sr)));
+        let left = bytes.len() - (sr.cur.position() as usize).min(bytes.len());
+        return match r {
+            Ok(Ok(v)) => ("ok".to_string(), v, left),
+            Ok(Err(e)) => (format!("err:{:?}", e), vec![], left),
+            Err(p) => (format!("panic:{}", panic_msg(p)), vec![], left),
+        };
+    }
     let mut cur = Cursor::new(bytes);
     let r = catch_unwind(AssertUnwindSafe(|| deserialize(&mut cur)));
     let left = bytes.len() - (cur.position() as usize).min(bytes.len());
@@ -315,6 +341,30 @@ pub fn generate(kind: &str, tier: &str, seed: u64, shard: u64, nshards: u64, pat
                 }
                 t.emit(&enc_event(&vec![]));
                 t.emit(&enc_event(&vec![Amf0Value::StrictArray(vec![Amf0Value::Null; 400])]));
+                // arrays around powers of two (a count is a number like any other: nothing may be capped or truncated)
+                for n in [255usize, 256, 257, 1024, 1025].iter() {
+                    t.emit(&enc_event(&vec![Amf0Value::StrictArray(vec![Amf0Value::Boolean(true); *n]), Amf0Value::Number(1.0)]));
+                }
+                // larger arrays are too slow for the TLA+ reference decoder: only the round trip is recorded (compared in Rust)
+                for n in [4095usize, 4096, 4097, 65535, 65536, 65537, 100000].iter() {
+                    let vals = vec![Amf0Value::StrictArray((0..*n).map(|i| Amf0Value::Number(i as f64)).collect()), Amf0Value::Null];
+                    let (res, dres, same, dtop) = match catch_unwind(AssertUnwindSafe(|| serialize(&vals))) {
+                        Ok(Ok(b)) => { let (dres, dvals, _) = lib_decode(&b); let same = dvals == vals; ("ok".to_string(), dres, same, dvals.len()) }
+                        Ok(Err(e)) => (format!("err:{:?}", e), "".to_string(), false, 0),
+                        Err(p) => (format!("panic:{}", panic_msg(p)), "".to_string(), false, 0),
+                    };
+                    t.emit(&json!({"ev":"EncBig","n":n,"res":res,"dres":dres,"same":same,"dtop":dtop}));
+                }
+                // the same container value several times in one sequence and inside another container
+                {
+                    let mut p = HashMap::new();
+                    p.insert("video".to_string(), Amf0Value::StrictArray(vec![Amf0Value::Number(2.0), Amf0Value::Utf8String("x".into())]));
+                    let v = Amf0Value::StrictArray(vec![Amf0Value::Number(2.0), Amf0Value::Utf8String("x".into())]);
+                    let w = Amf0Value::StrictArray(vec![Amf0Value::Null]);
+                    t.emit(&enc_event(&vec![Amf0Value::Utf8String("s".into()), Amf0Value::Object(p.clone()), w.clone(), v.clone()]));
+                    t.emit(&enc_event(&vec![Amf0Value::StrictArray(vec![v.clone(), w.clone(), v.clone()])]));
+                    t.emit(&enc_event(&vec![Amf0Value::Object(p.clone()), Amf0Value::Object(p.clone()), v.clone(), v.clone(), w.clone(), w]));
+                }
                 // strings and names with NUL / whitespace at either end (nothing may be trimmed)
                 for st in ["\u{0}", "a\u{0}", "\u{0}a", "a\u{0}\u{0}", " a ", "a\n", "\t", "\u{feff}a", "a\u{0}b"].iter() {
                     let mut p = HashMap::new();
